@@ -299,11 +299,6 @@ Qed.
 Lemma tws_insert_at l i t : tws (insert_at l i t) = tws l + tw t.
 Proof. unfold insert_at. rewrite tws_app, tws_cons. rewrite <- (firstn_skipn i l) at 3. rewrite tws_app. lia. Qed.
 
-Lemma tws_insert_before_last l t : tws (insert_before_last l t) = tws l + tw t.
-Proof.
-  unfold insert_before_last. rewrite <- (rev_involutive l) at 2. destruct (rev l) as [|y r]; cbn [rev]; [rewrite tws_one; reflexivity|].
-  rewrite !tws_app, !tws_cons. unfold tws at 2 4. cbn [fold_right]. lia.
-Qed.
 
 Lemma tws_set_cursor st c : s_tokens (set_cursor st c) = s_tokens st.
 Proof. reflexivity. Qed.
@@ -965,7 +960,7 @@ Proof.
   assert (G' : bal (tws (s_tokens st2) + mu text) rf2 (tws (s_tokens st2) + tws ch) rf3 0) by (eapply bal_eq; [exact G|lia]).
   pose proof (bal_trans _ _ _ _ _ _ _ _ F G') as FG.
   unfold endp in *. destruct (Block.truthy e) as [p|] eqn:Et.
-  - inversion H; subst b. unfold cres. destruct p; [lia|]. cbn [Block.truthy]. cbn [s_tokens set_tokens]. rewrite tws_insert_before_last. cbn [tw]. fold (tws ch).
+  - inversion H; subst b. unfold cres. destruct p; [lia|]. cbn [Block.truthy]. cbn [s_tokens set_tokens]. rewrite tws_insert_at. cbn [tw]. fold (tws ch).
     eapply bal_eq; [exact FG|]. lia.
   - inversion H; subst b. unfold cres. destruct (s_cursor st2) as [|c2] eqn:Ec2; [lia|]. cbn [Block.truthy]. rewrite tws_append. cbn [tw]. fold (tws ch).
     eapply bal_eq; [exact FG|]. lia.
